@@ -399,9 +399,44 @@ def gen_atlas(prng, tier):
     return {"variant": "clean", "motifs": motifs, "evals": evals, "faults": [], "set_order": "natural", "atlas": True}
 
 
+ATLAS7_FROM, ATLAS7_CHUNKS, ATLAS7_MAX_EDGES = 100, 24, 13
+
+
+def gen_atlas7(prng, j):
+    """The same one size up, as far as the budget reaches: the 709 of the 853 connected graphs on SEVEN vertices that have at most 13 edges,
+    sorted by degree sequence and cut into 24 consecutive chunks (shapes an incomplete invariant is most likely to confuse
+    share their degree sequence, so they stay on one evaluator); run index ATLAS7_FROM + j evaluates chunk j, every shape
+    at TWO focal vertices of different degree where it has them."""
+    shapes = [g for g in nx.graph_atlas_g() if g.number_of_nodes() == 7 and g.number_of_edges() <= ATLAS7_MAX_EDGES and nx.is_connected(g)]
+    shapes.sort(key=lambda g: (sorted(d for _, d in g.degree()), g.number_of_edges()))
+    per = -(-len(shapes) // ATLAS7_CHUNKS)
+    mine = shapes[j * per:(j + 1) * per]
+    motifs, evals = [], []
+    for i, g in enumerate(mine):
+        vs = list(g.nodes())
+        mp = dict(zip(vs, prng.sample(range(0, 60), len(vs))))
+        es = [[mp[a], mp[b]] if prng.random() < 0.5 else [mp[b], mp[a]] for a, b in g.edges()]
+        prng.shuffle(es)
+        motifs.append({"name": f"atlas7-{j}-{i}", "edges": es})
+        by_deg = {}
+        for v, d in g.degree():
+            by_deg.setdefault(d, []).append(mp[v])
+        degs = sorted(by_deg)
+        focals = [prng.choice(by_deg[degs[-1]])] + ([prng.choice(by_deg[degs[0]])] if len(degs) > 1 else [])
+        for fv in focals:
+            verts = sorted(mp.values())
+            ev = {"m": i, "focal": fv}
+            ev.update(gen_operands(prng, verts, "exact" if len(es) <= 9 else "float"))
+            evals.append(ev)
+    prng.shuffle(evals)
+    return {"variant": "clean", "motifs": motifs, "evals": evals, "faults": [], "set_order": "natural", "atlas": True}
+
+
 def generate(prng, tier, index):
     if index == ATLAS_AT:
         return gen_atlas(prng, tier)
+    if ATLAS7_FROM <= index < ATLAS7_FROM + ATLAS7_CHUNKS:
+        return gen_atlas7(prng, index - ATLAS7_FROM)
     if index % 5 == 4:
         return gen_overlap(prng, tier, index)
     big = tier == "thorough"
